@@ -29,8 +29,8 @@ PathsV  == IF Rich
            ELSE {<<>>, <<47>>, <<97>>, <<49, 58, 98>>, <<97, 58, 98>>, <<47, 47, 97>>, <<47, 46, 47, 47, 97>>}
 Queries == IF Rich THEN {<<>>, <<113>>, <<97, 58, 98, 47, 99, 63, 100>>} ELSE {<<>>, <<113>>}
 Frags   == IF Rich THEN {<<>>, <<102>>, <<97, 47, 98, 63, 99>>} ELSE {<<102>>}
-SegsV   == IF Rich THEN {<<>>, <<97>>, DOT, DOTDOT, <<98, 58, 99>>, <<49, 58, 99>>, <<233>>}
-           ELSE {<<>>, <<97>>, DOTDOT, <<49, 58, 99>>}
+SegsV   == IF Rich THEN {<<>>, <<97>>, DOT, DOTDOT, <<98, 58, 99>>, <<49, 58, 99>>, <<233>>, <<98, 46, 46>>}
+           ELSE {<<>>, <<97>>, DOTDOT, <<49, 58, 99>>, <<98, 46, 46>>}
 Bases   == {<<115, 58, 47, 47, 104, 47, 97, 47, 98>>, <<115, 58, 97>>, <<115, 58, 47, 47, 104>>}
 Users   == {<<>>, <<117>>}
 Hosts   == {<<>>, <<104>>, <<91, 58, 58, 49, 93>>}
@@ -53,24 +53,7 @@ Ops(k, w) ==
                    \cup {Op("set_port", p) : p \in Ports \cup {NULL}}
               ELSE {})
 
-PathOpOf(o) == IF o.op \in {"push", "sym_push"} THEN <<o.op, o.arg>> ELSE <<o.op>>
-
-\* the set of admissible texts after the operation
-Apply(k, w, o) ==
-    LET P   == Parts(w)
-        ctx == CtxOf(Fam, k, w)
-    IN  CASE o.op = "set_scheme"    -> SetScheme(w, o.arg)
-          [] o.op = "set_authority" -> SetAuthority(w, o.arg)
-          [] o.op = "set_path"      -> SetPath(w, o.arg)
-          [] o.op = "set_query"     -> SetQuery(w, o.arg)
-          [] o.op = "set_fragment"  -> SetFragment(w, o.arg)
-          [] o.op = "resolve"       -> ResolveSet(Fam, o.arg, w)
-          [] o.op \in {"set_userinfo", "set_host", "set_port"} ->
-                {AuthStep(w, AuthWindow(w), <<o.op, o.arg>>).text}
-          [] OTHER ->
-                LET ab == AbsOf(ctx, P.path)
-                IN  UNION {{Embed(ctx, c) : c \in AdmissibleStep(ctx, HasLeadDot(P.path), ab, A)}
-                           : A \in AltsOf(ab, Segs(P.path), PathOpOf(o))}
+Apply(k, w, o) == EditApply(Fam, k, w, o)
 
 \* C05: the intended records of a setter re-parse to themselves and are valid (sufficiency)
 Records(w, o) ==
